@@ -81,12 +81,20 @@ def run(ctx):
     rng = ctx.rng
     for _ in range(ctx.budget(40, 400)):
         junk.append(''.join(rng.choice('omwpi xyz01') for _ in range(rng.randint(0, 3))))
+    # every two-letter word over the coefficients, and the empty string: the pair ('', 'mw') must not be
+    # mistaken for ('m', 'w')
+    junk += [a + b for a in SC for b in SC] + [a + b + c for a in 'om' for b in 'wp' for c in 'io']
+    pairs_extra = [(x, y) for x in ('', 'o', 'mw', 'oo', 'i', None, 0) for y in junk if not (x in SC and y in SC)]
     for x in junk:
         if isinstance(x, str) and x in SC:
             continue
         for fn, name in ((S.sum_mwp, 'sum_mwp'), (S.prod_mwp, 'prod_mwp')):
-            for good in SC:
-                for args in ((x, good), (good, x), (x, x)):
+            for good in SC + [None]:
+                cands = ((x, good), (good, x), (x, x)) if good is not None else \
+                    tuple(p for p in pairs_extra if p[1] is x) + tuple((p[1], p[0]) for p in pairs_extra if p[1] is x)
+                for args in cands:
+                    if all(isinstance(a, str) and a in SC for a in args):
+                        continue
                     try:
                         r = fn(*args)
                         raised = False
